@@ -477,4 +477,36 @@ PROPS["C18"] = {
     "level_note": "Trusted: Lean kernel, the models named above, harness.",
 }
 
+PROPS["C15"] = {
+    "lean": ["WsVerif.Props.C15"],
+    "rule": "Mutation from valid seeds (bit flips, interesting bytes, truncation, duplication, insertion, splicing, 8-byte 0xff/0x7f/0x80 "
+            "runs; 400 mutants per entry point quick, 20000 thorough) at 14 entry points: ws.ReadHeader, ws.ReadFrame, wsutil.Reader "
+            "(server/client/extended, UTF-8 check on, draining every frame), wsutil.ReadMessage, ReadClientData/ReadServerData/"
+            "ReadClientText, ControlFrameHandler on both sides, ws.Upgrader (3 configurations incl. 16-byte buffer, selectors, wsflate "
+            "negotiation), ws.HTTPUpgrader, ws.Dialer (2 configurations), wsflate.DecompressFrame, Parameters.Parse, Extension.Negotiate, "
+            "subprotocol and extension header values through the upgrader; the announced lengths 2^31, 2^31+1, 2^32, 2^40, 2^62, 2^63-1, "
+            "2^63, 2^64-1 (masked and not) at ReadHeader, wsutil.Reader, the control handler and the MaxFrameSize reader, and the ones "
+            "make() refuses at the allocating helpers; MaxFrameSize 0/1/125/126/1000/65535/65536 x payloads 0..70000. Each call runs "
+            "under recover() with a 5 s watchdog and an allocation meter (TotalAlloc delta must stay below 1 MiB + 64 x input).",
+    "exhaustive_families": [],
+    "trusted_base": [
+        "all models as in C01-C14; here the model's prediction is the same for every input - the call returns - and the oracle judges the "
+        "observation (PANIC / HANG / LARGE allocation / payload bytes pulled before a MaxFrameSize refusal)",
+        "runtime.MemStats.TotalAlloc as the allocation meter; lengths that make() accepts but the sandbox could not back (2^31..2^47 at "
+        "ReadFrame/ReadMessage) are NOT executed - they would commit that memory; the model marks them as outside",
+        "mutation is not coverage-guided (no instrumentation is available offline): it supports the search for a failing input, the "
+        "claims rest on the theorems",
+    ],
+    "assumptions": COMMON_ASSUME + ["'hang' = no return within 5 s on inputs of at most 70 kB"],
+    "level_text": "Kernel-checked: every model function is total (the kernel accepted the definitions; loops carry fuel), Go panics are "
+                  "explicit model outcomes; ws.ReadHeader asks for at most 2 + 12 bytes whatever the announced length and never reaches one "
+                  "of its index/slice panics, for any input and chunking; ReadFrame does not panic for announced lengths make() accepts "
+                  "(PARTIAL - the full statement is false: F5); the payload cipher is total; with MaxFrameSize set an oversized frame is "
+                  "refused with the source exactly where its header ended; every item the header-value lexer returns consumes at least one "
+                  "byte (no scan loops without consuming input). KNOWN FINDING F5 (not repaired): ws.ReadFrame and wsutil.ReadMessage panic "
+                  "in make() on a header announcing 2^62..2^63-1 bytes - proved on the model (F5_readFrame_makeslice), replayed on the code.",
+    "level_note": "Trusted: Lean kernel, models, harness watchdog and allocation meter. Panics elsewhere (handshake, wsflate, negotiation) "
+                  "are covered by the per-property models (explicit PANIC outcomes compared on every case) and by the mutation run.",
+}
+
 NOT_APPLICABLE = {}
